@@ -223,6 +223,9 @@ class C17(core.Check):
                     b'70 A=1e5:b=1d5:c=&hff:d=&o17:e=1E+5else', b'80 go to 10:go sub 20', b'90 x=3 else y=4 eqv 5',
                     b'100 PRINT 7else 8', b'110 print 7eqv 8', b'120 on x gosub 10,20 else']
         out += [{'k': 'text', 'syn': i % 3, 'b': list(bytearray(t)), 'ci': True} for i, t in enumerate(ci_texts)]
+        for i, l in enumerate(G.FLOAT_TEXTS):
+            out.append({'k': 'text', 'syn': i % 3, 'b': list(bytearray(b'10 A=' + l)), 'ci': True,
+                        'lits': [list(bytearray(l))]})
         H = b'\0\xc0\xde\x0a\0'
         toks = [b'\x1d\1\2\3', b'\x1d\1\2', b'\x1d\1', b'\x1d', b'\x1f\1\2\3\4', b'\x1f\1\2\3\4\5', b'\x0b\1',
                 b'\x0c', b'\x0f', b'\x0e\1', b'\x1c\xff\xff', b'\x1b', b'\x7f', b'\xff', b'\xff\x81', b'\xa1',
@@ -272,8 +275,10 @@ class C17(core.Check):
                 t = bytes(T.tokenise_line(b'1 A=' + txt).read())[7:]
                 if t[:1] in (b'\x1d', b'\x1f') and len(t) in (5, 9):
                     listed = bytes(rec._real.from_bytes(t[1:]).to_str(leading_space=False, type_sign=True))
-                    # the class only has literals whose text converts back to the same token (C07's round trip)
-                    if bytes(T.tokenise_line(b'1 A=' + listed).read())[7:] == t:
+                    # the class has the literals the property speaks about (exactly representable, <= 7 / 16
+                    # digits, decided by an independent reference - never dropped because the implementation
+                    # fails on them) plus others whose text happens to convert back to the same token
+                    if G.exactly_representable(txt) or bytes(T.tokenise_line(b'1 A=' + listed).read())[7:] == t:
                         pairs.append((bytearray(t)[0], t[1:], listed))
             cache[syn] = pairs
         return cache[syn]
@@ -412,6 +417,28 @@ class C17(core.Check):
             c['ci'] = True        # generated program text: subject to the capitalisation clause of the oracle
         return c
 
+    def _gen_float(self, rng, hist):
+        """a line with float literals of every shape; `lits` are the literal texts as typed."""
+        syn = rng.randrange(3)
+        lits = []
+        for _ in range(rng.choice([1, 1, 2, 3])):
+            lits.append(G.random_exact_literal(rng) if rng.random() < 0.6 else rng.choice(G.FLOAT_TEXTS))
+        tmpl = rng.randrange(4)
+        if tmpl == 0:
+            body = b':'.join(b'A=' + l for l in lits)
+        elif tmpl == 1:
+            body = b'PRINT ' + b';'.join(lits)
+        elif tmpl == 2:
+            body = b'IF X=' + lits[0] + b' THEN PRINT ' + lits[-1] + b' ELSE PRINT ' + lits[0] + b' EQV ' + lits[-1]
+        else:
+            body = b'FOR I=' + lits[0] + b' TO ' + lits[-1] + b' STEP ' + lits[0]
+        if rng.random() < 0.3:
+            body = body.lower()
+        text = b'%d ' % rng.choice([10, 100, 65529]) + body
+        hist['text_float'] = hist.get('text_float', 0) + 1
+        return {'k': 'text', 'syn': syn, 'b': list(bytearray(text)), 'ci': True,
+                'lits': [list(bytearray(l)) for l in lits]}
+
     def _gen_tokens(self, rng, hist):
         syn = rng.randrange(3)
         body = progen.line_body(rng, [10, 20]).encode('latin1')
@@ -450,8 +477,10 @@ class C17(core.Check):
         out = []
         for i in range(n):
             m = i % 10
-            if m < 3:
+            if m < 2:
                 out.append(self._gen_text(rng, hist))
+            elif m < 3:
+                out.append(self._gen_float(rng, hist))
             elif m < 4:
                 out.append(self._gen_tokens(rng, hist))
             elif m < 5:
@@ -482,6 +511,7 @@ class C17(core.Check):
 
     def undescribe(self, d):
         return {k: v for k, v in d.items() if k not in ('canonical_text', 'text')}
+
 
     def shrink_candidates(self, case):
         """grammar cases are not shrunk: a sub-list of a canonical item list is in general not canonical, so a
@@ -559,6 +589,23 @@ class C17(core.Check):
                 why = self._case_oracle(case)
                 if why:
                     return why
+        if case['k'] == 'text' and 'lits' in case:
+            # float literal clause, on the implementation: a line whose number literals are exactly representable
+            # with at most 7 / 16 significant digits lists as text that re-enters as the identical token line
+            lits = [bytes(bytearray(l)) for l in case['lits']]
+            if all(G.exactly_representable(l) for l in lits):
+                if r['tokens'] is None or r['text'] is None:
+                    return 'line with exactly representable literals %r could not be tokenised / listed' % (lits,)
+                if r['tokens2'] != r['tokens']:
+                    return ('tokenise(list(T)) != T for exactly representable literals %r: listed %r'
+                            % (lits, r['text']))
+                if len(lits) == 1 and r['text'].count(b'=') == 1 and b':' not in r['text']:
+                    listed = r['text'].split(b'=')[1].strip()
+                    try:
+                        if G.literal_value(listed)[0] != G.literal_value(lits[0])[0]:
+                            return 'literal %r is listed as %r: value changed' % (lits[0], listed)
+                    except ValueError:
+                        pass
         if case['k'] == 'items':
             # a line of the canonical grammar lists as text that re-enters as the identical tokenised line
             if r['text'] is None:
